@@ -15,21 +15,21 @@ import (
 )
 
 type parseModel struct {
-	p        *Pkg
-	fd       *ast.FuncDecl
-	g        *cfg.CFG
-	param    types.Object
-	objVar   types.Object
-	loop     ast.Stmt
-	setCall  *ast.CallExpr
-	splitAs  *ast.AssignStmt
-	splitFn  *types.Func
+	p       *Pkg
+	fd      *ast.FuncDecl
+	g       *cfg.CFG
+	param   types.Object
+	objVar  types.Object
+	loop    ast.Stmt
+	setCall *ast.CallExpr
+	splitAs *ast.AssignStmt
+	splitFn *types.Func
 	// an element split written inline (several consecutive statements that
 	// define and refine the two halves): the statements, the first being splitAs
 	splitRegion []ast.Stmt
-	abvObj   types.Object
-	valObj   types.Object
-	orderVar *types.Var
+	abvObj      types.Object
+	valObj      types.Object
+	orderVar    *types.Var
 	// R01.cmp verdict, reported after the automaton has run
 	cmpRan, cmpOK bool
 	cmpDetail     string
